@@ -45,6 +45,8 @@ pub struct Flavor {
     pub max_cluster_bytes: u32,
     /// percentage of runs that start from a builder-made (refgen) volume: 1-3 FATs, mirroring off, zero padding, ...
     pub refgen_pct: u32,
+    /// per-mille probability that a step carries a hard device error (the run then ends with the relaxed oracle)
+    pub hard_fault_pm: u32,
 }
 
 pub fn base_flavor(prop: &'static str) -> Flavor {
@@ -61,6 +63,7 @@ pub fn base_flavor(prop: &'static str) -> Flavor {
         two_phase_ro: false,
         max_cluster_bytes: 65536,
         refgen_pct: 0,
+        hard_fault_pm: 0,
     }
 }
 
@@ -287,7 +290,8 @@ pub fn cfg_summary(c: &RunCfg) -> String {
 pub fn engine_outcome(seed: u64, fl: &Flavor) -> RunOutcome {
     let mut r = Rng::new(seed);
     let cfg = draw_cfg(&mut r, fl);
-    let prof = (fl.profile)(&mut r);
+    let mut prof = (fl.profile)(&mut r);
+    prof.hard_fault = fl.hard_fault_pm;
     let max_steps = prof.steps + 60;
     let gseed = r.next_u64();
     let res = if fl.two_phase_ro {
@@ -331,6 +335,14 @@ pub fn engine_batches(prop: &'static str, tier: &str, seed: u64) -> Vec<Batch<'s
     out.push(Batch { name: format!("{}-plain-device", prop), runs: n_plain, f: Box::new(move |i| engine_outcome(crate::rng::run_seed(seed, 1, i), &f1)) });
     let mut f2 = fl.clone();
     f2.benign = true;
+    if prop == "C03" {
+        // a hard storage error in the middle of an operation: afterwards only "no cross-link, no cycle, no
+        // out-of-range link" is demanded (the run ends with that relaxed check)
+        let mut f3 = fl.clone();
+        f3.hard_fault_pm = 60;
+        let n3 = n_benign;
+        out.push(Batch { name: "C03-hard-fault(one hard device error, then the relaxed structural check)".into(), runs: n3, f: Box::new(move |i| engine_outcome(crate::rng::run_seed(seed, 3, i), &f3)) });
+    }
     if !matches!(prop, "C13") {
         out.push(Batch { name: format!("{}-benign-faults(eintr,short_read,short_write)", prop), runs: n_benign, f: Box::new(move |i| engine_outcome(crate::rng::run_seed(seed, 2, i), &f2)) });
     }
